@@ -216,10 +216,17 @@ func H_C04_Breakdown() {
 	group := &org.Item{Name: "group", Currency: curOf("group.cur")}
 	l := &Line{Quantity: num.MakeAmount(2, 0), Item: group, Taxes: tax.Set{{Category: "VAT", Percent: &p21}}}
 	n := 1 + vrt.Choice("sublines", 2)
+	coarse := vrt.Choice("coarse", 3)
 	for k := 0; k < n; k++ {
 		name := "s" + string(rune('0'+k))
-		pr := num.MakeAmount(vrt.Int64In(name+".price", -1000000, 1000000), 2)
-		sl := &SubLine{Quantity: num.MakeAmount(int64(1+k), 0), Item: &org.Item{Name: "part", Price: &pr}}
+		// prices as precise as the currency with whole quantities, or coarser prices (1 or 0 decimals) with a
+		// fractional quantity on the first row, so that the row totals need more decimals than the prices carry
+		pr := num.MakeAmount(vrt.Int64In(name+".price", -1000000, 1000000), uint32(2-coarse))
+		qty := num.MakeAmount(int64(1+k), 0)
+		if coarse > 0 && k == 0 {
+			qty = num.MakeAmount(15, 1)
+		}
+		sl := &SubLine{Quantity: qty, Item: &org.Item{Name: "part", Price: &pr}}
 		if k == 0 {
 			sl.Item.Currency = curOf("s0.cur")
 			if vrt.Choice("s0.disc", 2) == 1 {
